@@ -15,6 +15,8 @@ import (
 
 	"github.com/RoaringBitmap/roaring"
 	segment "github.com/blugelabs/bluge_segment_api"
+
+	refice "verif/harness/refice"
 )
 
 // Impl is one implementation of ice (the current /repo or the frozen reference).
@@ -41,6 +43,7 @@ const (
 	OpStats        = 16
 	OpContains     = 17
 	OpFooter       = 20
+	OpLayout       = 21
 )
 
 const ErrMark = 4294967294
@@ -103,6 +106,8 @@ type Op struct {
 	Terms []FT `json:"terms,omitempty"`
 	// footer check: the persisted bytes (filled in when the op runs)
 	File []byte `json:"file,omitempty"`
+	// layout: which fields have a doc-value section in the real file (filled in when the op runs)
+	DVFlags []bool `json:"dv_flags,omitempty"`
 }
 
 // Encode writes the op in the flat form parsed by Run.v (pop).
@@ -194,6 +199,12 @@ func (o *Op) Encode(w *W) {
 	case OpFooter:
 		w.Num(uint64(o.Slot))
 		w.Bytes(o.File)
+	case OpLayout:
+		w.Num(uint64(o.Slot))
+		w.Num(uint64(len(o.DVFlags)))
+		for _, b := range o.DVFlags {
+			w.Bool(b)
+		}
 	default:
 		panic("unknown op")
 	}
@@ -503,6 +514,8 @@ func (in *Interp) RunOp(o *Op) (out W) {
 		out.Bool(ok)
 	case OpFooter:
 		return in.footerOp(o)
+	case OpLayout:
+		return in.layoutOp(o)
 	default:
 		panic("unknown op")
 	}
@@ -849,5 +862,92 @@ func (in *Interp) footerOp(o *Op) (out W) {
 	if in.Bytes[o.Slot] != nil {
 		in.Touched["repersist_loaded"]++
 	}
+	return out
+}
+
+// layoutOp persists the segment with the implementation under test and parses
+// the bytes with the structural dumper of the frozen reference copy (the pinned
+// format): chunk boundaries, uncompressed chunk bytes, 1-hit decisions, stored
+// blocks and offsets, doc-value headers.  The Coq model must produce the same
+// layout from the scenario alone.
+func (in *Interp) layoutOp(o *Op) (out W) {
+	b, err := in.Persist(in.Segs[o.Slot])
+	if err != nil {
+		in.fail("", "WriteTo failed: %v", err)
+		return W{ErrMark, 1}
+	}
+	l, err := refice.VerifLayout(b)
+	if err != nil {
+		in.fail("C10", "the pinned reference parser cannot read the file: %v", err)
+		return W{ErrMark, 1}
+	}
+	o.DVFlags = nil
+	out.Num(l.NumDocs)
+	out.Num(uint64(l.ChunkMode))
+	out.Num(uint64(len(l.Fields)))
+	for _, f := range l.Fields {
+		o.DVFlags = append(o.DVFlags, f.HasDV)
+		out.Str(f.Name)
+		out.Num(f.Docs)
+		out.Num(f.Freqs)
+		out.Num(uint64(len(f.Terms)))
+		for _, t := range f.Terms {
+			out.Bytes(t.Key)
+			if t.OneHit {
+				out.Num(1)
+				out.Num(t.Doc)
+				out.Num(t.Norm)
+				in.Touched["layout_1hit"]++
+				continue
+			}
+			out.Num(0)
+			out.Num(uint64(len(t.Docs)))
+			for _, d := range t.Docs {
+				out.Num(uint64(d))
+			}
+			out.Num(t.ChunkSize)
+			out.Num(uint64(len(t.FreqChunks)))
+			nonEmpty := 0
+			for _, c := range t.FreqChunks {
+				out.Bytes(c)
+				if len(c) > 0 {
+					nonEmpty++
+				}
+			}
+			if nonEmpty >= 2 {
+				in.Touched["layout_multi_chunk_term"]++
+			}
+			if t.LocEncoded {
+				out.Num(1)
+				out.Num(uint64(len(t.LocChunks)))
+				for _, c := range t.LocChunks {
+					out.Bytes(c)
+				}
+			} else {
+				out.Num(0)
+			}
+		}
+		out.Bool(f.HasDV)
+		if f.HasDV {
+			out.Num(uint64(len(f.DVChunks)))
+			for _, c := range f.DVChunks {
+				out.Num(uint64(len(c.Header)))
+				for _, h := range c.Header {
+					out.Num(h[0])
+					out.Num(h[1])
+				}
+				out.Bytes(c.Data)
+			}
+		}
+	}
+	out.Num(uint64(len(l.StoredBlocks)))
+	for _, blk := range l.StoredBlocks {
+		out.Bytes(blk)
+	}
+	if len(l.StoredBlocks) >= 2 {
+		in.Touched["layout_multi_block"]++
+	}
+	out.Nums(l.StoredOffsets)
+	out.Num(1) // the model's consistency flag: every field with doc-value entries has a doc-value section
 	return out
 }
